@@ -8,6 +8,7 @@ package driver
 import (
 	"bufio"
 	"bytes"
+	"encoding/hex"
 	"encoding/json"
 	"flag"
 	"fmt"
@@ -47,44 +48,49 @@ type Job struct {
 	Seed    uint64
 	CapSec  int
 	Workers int
+	PerProc uint64 // >0: every worker process executes at most this many runs (fresh process state)
 }
 
+// maxFailuresPerJob stops a batch once it has this many failing runs.
+const maxFailuresPerJob = 300
+
 type failure struct {
-	job   *Job
-	run   uint64
-	viol  plan.Violation
-	plan  string // path of the plan file ("" if it must be materialised)
-	race  string // race report text
-	crash string
+	job        *Job
+	run        uint64
+	viol       plan.Violation
+	plan       string // path of the plan file ("" if it must be materialised)
+	race       string // race report text
+	crash      string
 	replayPath string // set when the failing history is already on disk (no plan to minimise)
 }
 
 type jobResult struct {
-	job       *Job
-	runs      uint64
-	nontriv   map[string]bool // distinct signatures of non-trivial runs
-	stats     map[string]uint64
-	samples   []json.RawMessage
-	failures  []failure
-	infra     []string // infrastructure trouble (exit 2)
-	wall      float64
-	digests   map[uint64]string
-	evlines   map[uint64][]string
+	job      *Job
+	runs     uint64
+	nontriv  map[string]bool // distinct signatures of non-trivial runs
+	stats    map[string]uint64
+	samples  []json.RawMessage
+	failures []failure
+	infra    []string // infrastructure trouble (exit 2)
+	wall     float64
+	pairBits []byte
+	digests  map[uint64]string
+	evlines  map[uint64][]string
 }
 
 type config struct {
-	prop      string
-	tier      string
-	seed      uint64
-	evidence  string
-	replays   string
-	known     string
-	tmp       string
-	variants  []Variant
-	workers   int
-	selftest  bool
-	scale     float64
-	regress   string
+	prop     string
+	tier     string
+	seed     uint64
+	evidence string
+	replays  string
+	known    string
+	tmp      string
+	variants []Variant
+	workers  int
+	selftest bool
+	scale    float64
+	regress  string
 }
 
 func Main(args []string) int {
@@ -160,9 +166,23 @@ func runJob(cfg *config, job *Job) *jobResult {
 				if time.Now().After(deadline) {
 					return
 				}
-				next, done := runWorker(cfg, job, from, uint64(w), deadline, jr, &mu, i == 0)
+				to := job.Runs
+				if job.PerProc > 0 && from+job.PerProc*uint64(w) < to {
+					to = from + job.PerProc*uint64(w)
+				}
+				next, done := runWorker(cfg, job, from, to, uint64(w), deadline, jr, &mu, i == 0)
 				if done {
-					return
+					if to >= job.Runs {
+						return
+					}
+					mu.Lock()
+					stop := len(jr.failures) >= maxFailuresPerJob || len(jr.infra) > 0
+					mu.Unlock()
+					if stop {
+						return
+					}
+					from = to
+					continue
 				}
 				from = next
 			}
@@ -176,8 +196,8 @@ func runJob(cfg *config, job *Job) *jobResult {
 // runWorker starts one worker process for runs from, from+stride, ... It
 // returns the run index to resume from if the process died during a run (after
 // recording the failure), or done.
-func runWorker(cfg *config, job *Job, from, stride uint64, deadline time.Time, jr *jobResult, mu *sync.Mutex, wantSamples bool) (uint64, bool) {
-	args := []string{"worker", "-wl", job.WL, "-mode", job.Mode, "-seed", fmt.Sprint(job.Seed), "-from", fmt.Sprint(from), "-to", fmt.Sprint(job.Runs),
+func runWorker(cfg *config, job *Job, from, to, stride uint64, deadline time.Time, jr *jobResult, mu *sync.Mutex, wantSamples bool) (uint64, bool) {
+	args := []string{"worker", "-wl", job.WL, "-mode", job.Mode, "-seed", fmt.Sprint(job.Seed), "-from", fmt.Sprint(from), "-to", fmt.Sprint(to),
 		"-stride", fmt.Sprint(stride), "-tier", cfg.tier, "-violdir", cfg.tmp, "-deadline", fmt.Sprint(deadline.Unix())}
 	if wantSamples && from < stride {
 		args = append(args, "-samples", "3")
@@ -208,6 +228,7 @@ func runWorker(cfg *config, job *Job, from, stride uint64, deadline time.Time, j
 	last := time.Now()
 	stop := make(chan struct{})
 	killed := false
+	memKilled := 0
 	go func() {
 		t := time.NewTicker(time.Second)
 		defer t.Stop()
@@ -224,12 +245,20 @@ func runWorker(cfg *config, job *Job, from, stride uint64, deadline time.Time, j
 					cmd.Process.Kill()
 					return
 				}
+				if rss := rssMB(cmd.Process.Pid); rss > 3072 {
+					killed = true
+					memKilled = rss
+					cmd.Process.Kill()
+					return
+				}
 			}
 		}
 	}()
 	sc := bufio.NewScanner(stdout)
 	sc.Buffer(make([]byte, 1<<20), 1<<26)
 	inflight := int64(-1)
+	restartAfter := int64(-1)
+	stoppedEarly := false
 	plans := map[uint64]string{}
 	for sc.Scan() {
 		line := sc.Text()
@@ -278,12 +307,31 @@ func runWorker(cfg *config, job *Job, from, stride uint64, deadline time.Time, j
 			for _, v := range res.Violations {
 				jr.failures = append(jr.failures, failure{job: job, run: res.Run, viol: v, plan: plans[res.Run]})
 			}
+			enough := len(jr.failures) >= maxFailuresPerJob
 			mu.Unlock()
+			if enough {
+				// plenty of failing runs to classify and minimise; stop exploring
+				stoppedEarly = true
+				cmd.Process.Kill()
+			}
+		case strings.HasPrefix(line, "RESTART "):
+			fmt.Sscanf(line[8:], "%d", &restartAfter)
+		case strings.HasPrefix(line, "PAIRS "):
+			if b, err := hex.DecodeString(line[6:]); err == nil {
+				mu.Lock()
+				if len(jr.pairBits) < len(b) {
+					jr.pairBits = append(jr.pairBits, make([]byte, len(b)-len(jr.pairBits))...)
+				}
+				for i := range b {
+					jr.pairBits[i] |= b[i]
+				}
+				mu.Unlock()
+			}
 		case strings.HasPrefix(line, "STATS "):
 			var st map[string]uint64
 			if json.Unmarshal([]byte(line[6:]), &st) == nil {
 				mu.Lock()
-				for _, k := range []string{"yield_sites", "package_vars"} {
+				for _, k := range []string{"yield_sites", "package_vars", "site_pairs_this_process"} {
 					if st[k] > jr.stats[k] {
 						jr.stats[k] = st[k]
 					}
@@ -294,9 +342,12 @@ func runWorker(cfg *config, job *Job, from, stride uint64, deadline time.Time, j
 	}
 	err = cmd.Wait()
 	close(stop)
-	if err == nil {
+	if err == nil || stoppedEarly {
 		return 0, true
 	}
+	mu.Lock()
+	tooMany := len(jr.failures) >= maxFailuresPerJob
+	mu.Unlock()
 	code := -1
 	if ee, ok := err.(*exec.ExitError); ok {
 		code = ee.ExitCode()
@@ -305,9 +356,16 @@ func runWorker(cfg *config, job *Job, from, stride uint64, deadline time.Time, j
 	defer mu.Unlock()
 	text := stderr.String()
 	switch {
+	case killed && memKilled > 0:
+		jr.infra = append(jr.infra, fmt.Sprintf("watchdog: worker grew to %d MB resident in run %d of job %s (seed %d) and was stopped", memKilled, inflight, job.Name, job.Seed))
+		return 0, true
 	case killed:
 		jr.infra = append(jr.infra, fmt.Sprintf("watchdog: worker made no progress for 300 s in run %d of job %s (seed %d)", inflight, job.Name, job.Seed))
 		return 0, true
+	case code == 3 && restartAfter >= 0:
+		// the worker found package-level state corrupted and exited so that
+		// later runs start from pristine state
+		return uint64(restartAfter) + stride, false
 	case code == 66 && inflight >= 0:
 		v, ok := classifyRace(text, cfg.prop)
 		if !ok {
@@ -316,6 +374,9 @@ func runWorker(cfg *config, job *Job, from, stride uint64, deadline time.Time, j
 		}
 		jr.failures = append(jr.failures, failure{job: job, run: uint64(inflight), viol: v, race: text})
 		jr.runs++
+		if tooMany {
+			return 0, true
+		}
 		return uint64(inflight) + stride, false
 	case inflight >= 0 && (strings.Contains(text, "fatal error: concurrent map") || strings.Contains(text, "fatal error: sync:")):
 		jr.failures = append(jr.failures, failure{job: job, run: uint64(inflight), crash: text,
@@ -574,13 +635,17 @@ func reportFailures(cfg *config, all []failure, known []knownFinding, exit *int,
 		fmt.Printf("NOTE: %d run(s) hit a finding that belongs to another property (decided by that property's own check): %s\n", sibling[k], k)
 	}
 	var out []reportedViolation
-	budgetEnd := time.Now().Add(8 * time.Minute)
+	total := 150 * time.Second
+	per := 50 * time.Second
+	if cfg.tier == "thorough" {
+		total, per = 10*time.Minute, 120*time.Second
+	}
+	budgetEnd := time.Now().Add(total)
 	for gi, id := range order {
 		g := groups[id]
 		f := g.fails[0]
-		if gi >= 12 {
-			// still report, without minimisation
-			fmt.Printf("  (further failing class %s: %d runs, not minimised)\n", id, len(g.fails))
+		if gi >= 40 {
+			fmt.Printf("  (further failing class %s: %d runs)\n", id, len(g.fails))
 			continue
 		}
 		if f.replayPath != "" {
@@ -609,9 +674,13 @@ func reportFailures(cfg *config, all []failure, known []knownFinding, exit *int,
 		p.Detail = f.viol.Detail
 		var minimised *plan.Plan
 		v := f.viol
-		if time.Now().Before(budgetEnd) {
-			minimised, v = minimise(cfg, f.job, p, f.viol)
+		if left := time.Until(budgetEnd); left > 5*time.Second {
+			if left > per {
+				left = per
+			}
+			minimised, v = minimise(cfg, f.job, p, f.viol, left)
 		} else {
+			// out of minimisation budget: the unminimised plan is still an exact replay
 			minimised = p
 		}
 		minimised.Class = v.Class
@@ -820,4 +889,15 @@ func runRegressions(cfg *config) ([]failure, []string, map[string]interface{}) {
 	st["files"] = n
 	st["failing"] = len(fails)
 	return fails, infra, st
+}
+
+// rssMB reads the resident set size of a process from /proc.
+func rssMB(pid int) int {
+	b, err := os.ReadFile(fmt.Sprintf("/proc/%d/statm", pid))
+	if err != nil {
+		return 0
+	}
+	var size, rss int
+	fmt.Sscanf(string(b), "%d %d", &size, &rss)
+	return rss * os.Getpagesize() / (1 << 20)
 }
